@@ -72,6 +72,7 @@ def _handmade(draw):
     case = dict(src="handmade", fact=fact, n=n, d=d, N=N, kind_m=kind_m, mean=arr(sh["b"]).tolist(), chol=chol(kind_m), conds=conds,
                 tcoeff_index=draw(st.integers(0, n - 1)), average=draw(st.booleans()),
                 log_std=arr(std_shape, gen.exponent(-6.0, 3.0)).tolist(), equal_std=draw(st.booleans()),
+                std_corner=draw(st.sampled_from(["none", "none", "none", "low_first", "low_last", "low_all"])),
                 z=arr((N, d), gen.quarter(-12, 12)).tolist(), terminal=draw(st.booleans()))
     return case
 
@@ -107,6 +108,7 @@ def strategy(ctx):
         std_shape = (N,) if cfg["fact"] == "isotropic" else (N, d)
         case.update(src="solver", tcoeff_index=draw(st.integers(0, n - 1)), average=draw(st.booleans()),
                     log_std=np.asarray(draw(gen.vec(int(np.prod(std_shape)), gen.exponent(-6.0, 3.0)))).reshape(std_shape).tolist(),
+                    std_corner=draw(st.sampled_from(["none", "none", "none", "low_first", "low_last", "low_all"])),
                     equal_std=draw(st.booleans()),
                     z=np.asarray(draw(gen.vec(N * d, gen.quarter(-12, 12)))).reshape(N, d).tolist(), terminal=draw(st.booleans()))
         return case
@@ -174,6 +176,15 @@ def _std_arrays(case, fact, N, d):
     ls = np.asarray(case["log_std"], float)
     if case["equal_std"]:
         ls = np.ones_like(ls) * ls.reshape(-1)[0]
+    # corners named in the property: the lowest noise level (1e-6) exactly where the posterior itself is (nearly) certain -
+    # at the initial time of a noise-free initial state, at a zero-covariance terminal marginal, or everywhere
+    corner = case.get("std_corner", "none")
+    if corner == "low_first":
+        ls[0] = -6.0
+    elif corner == "low_last":
+        ls[-1] = -6.0
+    elif corner == "low_all":
+        ls = np.ones_like(ls) * -6.0
     std = 10.0**ls
     std_dense = np.repeat(std[:, None], d, axis=1) if fact == "isotropic" else std
     return std, std_dense
